@@ -18,9 +18,10 @@ ANCHORS = ["src/pylife/strength/fkm_nonlinear/assessment_nonlinear_standard.py",
            "src/pylife/materiallaws/notch_approximation_law.py"]
 SHARDS = {"quick": 12, "thorough": 16}
 WATCHDOG = {"quick": 1500, "thorough": 3300}
-REQUIRED_CLASSES = {t: ["batch:2..6_points", "batch:uniform_G", "batch:per_point_G", "batch:ratios_differ", "batch:dyadic_ratio",
+REQUIRED_CLASSES = {t: ["batch:2..6_points", "batch:uniform_G", "batch:per_point_G", "batch:per_point_G_orders_apart", "batch:ratios_differ", "batch:dyadic_ratio",
                         "refine:interior", "refine:trailing", "mono:scale", "mono:R_z", "mono:P_A", "quantiles",
-                        "load_scatter:normal", "load_scatter:lognormal", "load_scatter:unknown",
+                        "load_scatter:normal", "load_scatter:lognormal", "load_scatter:unknown", "load_step_labels:descending",
+                        "load_step_labels:shuffled", "node_ids:descending", "node_ids:shuffled_large",
                         "material:Steel", "material:Al_wrought"]
                     for t in ("quick", "thorough")}
 REQUIRED_MONITORS = ["batch==single:P_RAM_lifetime", "batch==single:P_RAJ_lifetime", "batch==single:infinite_life_verdicts",
@@ -215,16 +216,23 @@ def _run_case(case, ctx):
             ctx.tag("batch:ratios_differ")
         perG = rng.random() < 0.4
         if perG:
-            Gs = rng.uniform(0.02, 1.5, k).round(4)
+            # from nearly homogeneous stress to sharp notches: the support factor n_P then really differs between the points
+            Gs = (10 ** rng.uniform(-1.7, 1.3, k)).round(4)
             ctx.tag("batch:per_point_G")
+            if Gs.max() / Gs.min() > 20:
+                ctx.tag("batch:per_point_G_orders_apart")
         else:
             Gs = np.full(k, ap["G"])
             ctx.tag("batch:uniform_G")
-        idx = pd.MultiIndex.from_product([range(len(seq)), range(k)], names=["load_step", "node_id"])
+        from .. import hcm
+        lk, labels = hcm.step_labels(rng, len(seq))
+        nk, node_ids = hcm.node_labels(rng, k)
+        ctx.tag("load_step_labels:" + lk, "node_ids:" + nk)
+        idx = pd.MultiIndex.from_product([labels, node_ids], names=["load_step", "node_id"])
         load = pd.Series((np.asarray(seq)[:, None] * np.asarray(factors)[None, :]).reshape(-1), index=idx, dtype=float)
         apb = dict(ap)
         if perG:
-            apb["G"] = pd.Series(Gs, index=pd.Index(range(k), name="node_id"))
+            apb["G"] = pd.Series(Gs, index=pd.Index(node_ids, name="node_id"))
         resb = assess(apb, load)
         # the batch picks the table class from node 0's load (range); the per-node load scaling gamma_L makes the
         # products inexact, so a load or range on a class edge (within 1e-6 of a multiple of max/100) can fall one
